@@ -1,4 +1,5 @@
 import Sml.Lemmas.Grammar4
+import Sml.Props.C06
 /-
   Introduction rules of the grammar relations (pure unfoldings of the definitions in
   Sml/Spec/Grammar.lean; no parser involved).  Used to exhibit concrete encodings.
@@ -128,6 +129,15 @@ theorem mk_crc (head : Bytes) (hi lo : UInt8)
   refine ⟨[0x63], [hi, lo], rfl, rfl, by simp, by simp, ?_⟩
   rw [h]
   simp [beNat]
+
+/-- from the error projection used in closed examples back to the result -/
+theorem errOf_eq {α : Type} {r : Except PErr α} {e : PErr} (h : C06.errOf r = some e) :
+    r = .error e := by
+  cases r with
+  | ok v => cases h
+  | error e' =>
+    simp only [C06.errOf, Option.some.injEq] at h
+    rw [h]
 
 theorem mk_file {F : File} {bs : Bytes} (h : EncSeq EncMessage F.messages bs) : EncFile F bs := h
 
